@@ -17,14 +17,14 @@ from concurrent.futures import ThreadPoolExecutor
 from .. import core, tlaval
 
 MC_INVARIANTS = ['OneLaunchPerEpoch', 'OneLaunchEver', 'NoHandshakeException', 'NoExceptionWithoutClose',
-                 'PrepareNeverRaises', 'Answered', 'LockSane', 'StarterOwnsPt', 'NoDeadlock']
+                 'PrepareNeverRaises', 'Answered', 'OwnReply', 'LockSane', 'StarterOwnsPt', 'NoDeadlock']
 
 
-def cfg_text(threads, seqs, maxfail=0, joinrace=False):
-    return ('SPECIFICATION Spec\nCONSTANTS\n  Threads = {%s}\n  OpSeqs <- %s\n  MaxFail = %d\n  JoinRace = %s\n'
+def cfg_text(threads, seqs, maxfail=0, joinrace=False, calllock=True):
+    return ('SPECIFICATION Spec\nCONSTANTS\n  Threads = {%s}\n  OpSeqs <- %s\n  MaxFail = %d\n  JoinRace = %s\n  CallLock = %s\n'
             '  Symmetric = TRUE\n%s\nCHECK_DEADLOCK FALSE\n' % (
                 ', '.join('"t%d"' % (i + 1) for i in range(threads)), seqs, maxfail,
-                'TRUE' if joinrace else 'FALSE', '\n'.join('INVARIANT ' + i for i in MC_INVARIANTS)))
+                'TRUE' if joinrace else 'FALSE', 'TRUE' if calllock else 'FALSE', '\n'.join('INVARIANT ' + i for i in MC_INVARIANTS)))
 
 
 def write_cfg(wd, name, *a, **kw):
@@ -36,7 +36,7 @@ def write_cfg(wd, name, *a, **kw):
 
 def expect_of(st):
     pc = {p: ('rx' if l == 'rxe' else l) for p, l in st['pc'].items()}   # both are the with-exit line of run()
-    return {'pc': pc, 'lock': st['lock'], 'pt': st['pt'], 'conn': st['conn'], 'live': st['live']}
+    return {'pc': pc, 'lock': st['lock'], 'clock': st['clock'], 'pt': st['pt'], 'conn': st['conn'], 'live': st['live']}
 
 
 def proc_of(act, args):
@@ -170,12 +170,14 @@ def run(tier, replay=None):
             mc += [('3t', (3, 'Seqs2', 0)), ('3t-fail', (3, 'Seqs1', 1)), ('3t-noclose3', (3, 'NoClose3', 0))]
         cfgs = {n: write_cfg(wd, n, *a) for n, a in mc}
         jr = write_cfg(wd, 'joinrace', 2, 'Seqs2', 0, joinrace=True)
+        nl = write_cfg(wd, 'nocalllock', 2, 'Seqs2', 0, calllock=False)
 
         def mcrun(n):
             return n, core.tlc('StartupMC', cfgs[n], workdir=wd, timeout=3000)
         with ThreadPoolExecutor(max_workers=8) as ex:
             fut_mc = [ex.submit(mcrun, n) for n in cfgs]
             fut_jr = ex.submit(core.tlc, 'StartupMC', jr, None, wd)
+            fut_nl = ex.submit(core.tlc, 'StartupMC', nl, None, wd)
             # ---- B. state graphs for replay -----------------------------------
             dots = [('g2', (2, 'Seqs2' if not thorough else 'Seqs3', 0)), ('g2f', (2, 'NoClose2', 1))]
             gcfgs = {n: write_cfg(wd, n, *a) for n, a in dots}
@@ -197,6 +199,7 @@ def run(tier, replay=None):
             fut_sim = ex.submit(sim)
             mcres = [f.result() for f in fut_mc]
             jrres = fut_jr.result()
+            nlres = fut_nl.result()
             dotres = [f.result() for f in fut_dot]
             simres = fut_sim.result()
         for n, r in mcres:
@@ -210,6 +213,9 @@ def run(tier, replay=None):
         if jrres.invariant != 'NoHandshakeException':
             raise core.MachineryFailure('vacuity guard: Startup.tla with JoinRace=TRUE no longer yields the join counterexample')
         ck.add_tlc(jrres)
+        if nlres.invariant != 'OwnReply':
+            raise core.MachineryFailure('vacuity guard: Startup.tla with CallLock=FALSE no longer lets a caller take another caller\'s reply (%s)' % nlres.invariant)
+        ck.add_tlc(nlres)
         jobs = []
         edges = 0
         covered = 0
